@@ -7,7 +7,9 @@
 // Every answer is followed by ` ; ` and the bounds of every partition as ListOffsets reports them
 // (`logStart/LSO/HWM`), so the bounds are checked after every step of every history.
 //
-//	reset <np>                                   -> ok
+//	reset <np> [<brokers 1|2>]                   -> ok            (every partition led by broker 0)
+//	move <p> <broker>                            -> ok            MoveTopicPartition
+//	via <broker>                                 -> ok            partition-level requests now go to this broker
 //	initx <k> <timeoutMs>                        -> <code> <epoch>            InitProducerID(txid x<k>)
 //	initr <k> <epoch>                            -> <code> <epoch>            InitProducerID(txid, pid, epoch) (KIP-360)
 //	addp <k> <epoch> <p,p..>                     -> <p>:<code> ...            AddPartitionsToTxn v3
@@ -15,8 +17,8 @@
 //	end <c> <k> <epoch> <commit>                 -> <code> <epoch>
 //	del <p> <off>                                -> <code> <lowWatermark>
 //	sleep <ms>                                   -> ok
-//	fetch <c> <iso> <maxBytes> <sid> <sepoch> <p:off:pmax,..|-> <forget p,..|->
-//	      -> <err> <sid> <p>:<code>:<hwm>:<lso>:<logStart>:<batches>:<aborted> ... (partitions sorted)
+//	fetch <c> <iso> <maxBytes> <sid> <sepoch> <p:off:pmax,..|-> <forget p,..|-> [<minBytes> <maxWaitMs>]
+//	      -> <elapsed virtual ms> <err> <sid> <p>:<code>:<hwm>:<lso>:<logStart>:<batches>:<aborted> ... (partitions sorted)
 //	         batch = first.n.k.epoch.seq.flags  (flags: d data, t transactional data, C commit marker, A abort marker)
 //	         aborted = k@first
 package main
@@ -50,6 +52,9 @@ type impl struct {
 	c       *kfake.Cluster
 	o, n    *kgo.Client
 	np      int
+	nb      int
+	via     int   // broker the partition-level requests go to
+	leader  []int // leader of every partition (set by the harness: all 0 at start)
 	topicID [16]byte
 	pids    map[int64]int64 // producer index -> producer id
 	rev     map[int64]int64
@@ -79,10 +84,14 @@ func (im *impl) kof(pid int64) int64 {
 	return 999
 }
 
-func newImpl(np int) (*impl, error) {
+func newImpl(np, nb int) (*impl, error) {
 	var stack kfake.VirtualNetwork
-	port := int(9000 + (portBase.Add(1)%5000)*2)
-	c, err := kfake.NewCluster(kfake.NumBrokers(1), kfake.Ports(port), kfake.SeedTopics(int32(np), "t"), kfake.ListenFn(stack.Listen))
+	port := int(9000 + (portBase.Add(1)%5000)*4)
+	ports := []int{port}
+	if nb == 2 {
+		ports = append(ports, port+1)
+	}
+	c, err := kfake.NewCluster(kfake.NumBrokers(nb), kfake.Ports(ports...), kfake.SeedTopics(int32(np), "t"), kfake.ListenFn(stack.Listen))
 	if err != nil {
 		return nil, err
 	}
@@ -98,7 +107,14 @@ func newImpl(np int) (*impl, error) {
 		c.Close()
 		return nil, err
 	}
-	return &impl{c: c, o: o, n: n, np: np, topicID: c.TopicInfo("t").TopicID, pids: map[int64]int64{}, rev: map[int64]int64{}}, nil
+	im := &impl{c: c, o: o, n: n, np: np, nb: nb, leader: make([]int, np), topicID: c.TopicInfo("t").TopicID, pids: map[int64]int64{}, rev: map[int64]int64{}}
+	for p := 0; p < np; p++ { // kfake picks leaders at random: start every history with broker 0 leading everything
+		if err := c.MoveTopicPartition("t", int32(p), 0); err != nil {
+			im.close()
+			return nil, err
+		}
+	}
+	return im, nil
 }
 
 func (im *impl) close() {
@@ -114,11 +130,19 @@ func (im *impl) cl(c string) *kgo.Client {
 	return im.n
 }
 
+// do sends a partition-level request to the broker the history's client is talking to.
 func (im *impl) do(cl *kgo.Client, req kmsg.Request) (kmsg.Response, error) {
+	return im.doAt(cl, im.via, req)
+}
+
+func (im *impl) doAt(cl *kgo.Client, broker int, req kmsg.Request) (kmsg.Response, error) {
 	ctx, cancel := context.WithTimeout(context.Background(), 30*time.Second)
 	defer cancel()
-	return cl.Broker(0).RetriableRequest(ctx, req)
+	return cl.Broker(broker).RetriableRequest(ctx, req)
 }
+
+// coord is the transaction coordinator of producer k's transactional id (requests to it always go to the right broker).
+func (im *impl) coord(k int64) int { return int(im.c.CoordinatorFor(fmt.Sprintf("x%d", k))) }
 
 // buildBatch makes a record batch of exactly nbytes wire bytes with n records (the last record's value is padded).
 func buildBatch(pid int64, epoch int16, seq, n int32, nbytes int, tx bool) []byte {
@@ -156,7 +180,7 @@ func (im *impl) initp(k int64, timeout int32, pid int64, epoch int16) string {
 	req.TransactionTimeoutMillis = timeout
 	req.ProducerID = pid
 	req.ProducerEpoch = epoch
-	kresp, err := im.do(im.n, req)
+	kresp, err := im.doAt(im.n, im.coord(k), req)
 	if err != nil {
 		return "err-request:" + strings.ReplaceAll(err.Error(), " ", "_")
 	}
@@ -181,7 +205,7 @@ func (im *impl) addp(k int64, epoch int16, ps []int32) string {
 	rt.Topic = "t"
 	rt.Partitions = ps
 	req.Topics = append(req.Topics, rt)
-	kresp, err := im.do(im.o, req)
+	kresp, err := im.doAt(im.o, im.coord(k), req)
 	if err != nil {
 		return "err-request:" + strings.ReplaceAll(err.Error(), " ", "_")
 	}
@@ -226,7 +250,7 @@ func (im *impl) end(c string, k int64, epoch int16, commit bool) string {
 	req.ProducerID = im.pid(k)
 	req.ProducerEpoch = epoch
 	req.Commit = commit
-	kresp, err := im.do(im.cl(c), req)
+	kresp, err := im.doAt(im.cl(c), im.coord(k), req)
 	if err != nil {
 		return "err-request:" + strings.ReplaceAll(err.Error(), " ", "_")
 	}
@@ -256,33 +280,41 @@ func (im *impl) del(p int32, off int64) string {
 }
 
 func (im *impl) listOffsets(ts int64, iso int8) []int64 {
-	req := kmsg.NewPtrListOffsetsRequest()
-	req.ReplicaID = -1
-	req.IsolationLevel = iso
-	rt := kmsg.NewListOffsetsRequestTopic()
-	rt.Topic = "t"
-	for p := 0; p < im.np; p++ {
-		rp := kmsg.NewListOffsetsRequestTopicPartition()
-		rp.Partition = int32(p)
-		rp.Timestamp = ts
-		rp.CurrentLeaderEpoch = -1
-		rt.Partitions = append(rt.Partitions, rp)
-	}
-	req.Topics = append(req.Topics, rt)
-	kresp, err := im.do(im.n, req)
 	out := make([]int64, im.np)
 	for i := range out {
 		out[i] = -99
 	}
-	if err != nil {
-		return out
-	}
-	for _, t := range kresp.(*kmsg.ListOffsetsResponse).Topics {
-		for _, p := range t.Partitions {
-			if int(p.Partition) < im.np {
-				out[p.Partition] = p.Offset
-				if p.ErrorCode != 0 {
-					out[p.Partition] = -1000 - int64(p.ErrorCode)
+	for b := 0; b < im.nb; b++ { // each partition is asked at its leader
+		req := kmsg.NewPtrListOffsetsRequest()
+		req.ReplicaID = -1
+		req.IsolationLevel = iso
+		rt := kmsg.NewListOffsetsRequestTopic()
+		rt.Topic = "t"
+		for p := 0; p < im.np; p++ {
+			if im.leader[p] != b {
+				continue
+			}
+			rp := kmsg.NewListOffsetsRequestTopicPartition()
+			rp.Partition = int32(p)
+			rp.Timestamp = ts
+			rp.CurrentLeaderEpoch = -1
+			rt.Partitions = append(rt.Partitions, rp)
+		}
+		if len(rt.Partitions) == 0 {
+			continue
+		}
+		req.Topics = append(req.Topics, rt)
+		kresp, err := im.doAt(im.n, b, req)
+		if err != nil {
+			continue
+		}
+		for _, t := range kresp.(*kmsg.ListOffsetsResponse).Topics {
+			for _, p := range t.Partitions {
+				if int(p.Partition) < im.np {
+					out[p.Partition] = p.Offset
+					if p.ErrorCode != 0 {
+						out[p.Partition] = -1000 - int64(p.ErrorCode)
+					}
 				}
 			}
 		}
@@ -345,11 +377,11 @@ func (im *impl) batches(raw []byte) string {
 	return strings.Join(out, "+")
 }
 
-func (im *impl) fetch(c string, iso int8, maxBytes, sid, sepoch int32, parts, forget string) string {
+func (im *impl) fetch(c string, iso int8, maxBytes, sid, sepoch int32, parts, forget string, minBytes, maxWait int32) string {
 	req := kmsg.NewPtrFetchRequest()
 	req.ReplicaID = -1
-	req.MaxWaitMillis = 0
-	req.MinBytes = 0
+	req.MaxWaitMillis = maxWait
+	req.MinBytes = minBytes
 	req.MaxBytes = maxBytes
 	req.IsolationLevel = iso
 	req.SessionID = sid
@@ -380,10 +412,13 @@ func (im *impl) fetch(c string, iso int8, maxBytes, sid, sepoch int32, parts, fo
 		}
 		req.ForgottenTopics = append(req.ForgottenTopics, ft)
 	}
+	start := time.Now()
 	kresp, err := im.do(im.cl(c), req)
 	if err != nil {
 		return "err-request:" + strings.ReplaceAll(err.Error(), " ", "_")
 	}
+	elapsed := time.Since(start).Milliseconds()
+	synctest.Wait()
 	resp := kresp.(*kmsg.FetchResponse)
 	var ps []string
 	for _, t := range resp.Topics {
@@ -400,7 +435,7 @@ func (im *impl) fetch(c string, iso int8, maxBytes, sid, sepoch int32, parts, fo
 		}
 	}
 	sort.Strings(ps)
-	return strings.TrimSpace(fmt.Sprintf("%d %d %s", resp.ErrorCode, resp.SessionID, strings.Join(ps, " ")))
+	return strings.TrimSpace(fmt.Sprintf("%d %d %d %s", elapsed, resp.ErrorCode, resp.SessionID, strings.Join(ps, " ")))
 }
 
 func ints32(s string) []int32 {
@@ -425,12 +460,33 @@ func (im *impl) op(t []string) string {
 		return im.end(t[1], hx.Atoi(t[2]), int16(hx.Atoi(t[3])), t[4] == "1")
 	case "del":
 		return im.del(int32(hx.Atoi(t[1])), hx.Atoi(t[2]))
+	case "move":
+		p, b := int(hx.Atoi(t[1])), int(hx.Atoi(t[2]))
+		if p < im.np && b < im.nb {
+			if err := im.c.MoveTopicPartition("t", int32(p), int32(b)); err != nil {
+				return "err"
+			}
+			im.leader[p] = b
+		}
+		return "ok"
+	case "via":
+		if b := int(hx.Atoi(t[1])); b < im.nb {
+			im.via = b
+		}
+		return "ok"
 	case "sleep":
 		time.Sleep(time.Duration(hx.Atoi(t[1])) * time.Millisecond)
 		synctest.Wait()
 		return "ok"
 	case "fetch":
-		return im.fetch(t[1], int8(hx.Atoi(t[2])), int32(hx.Atoi(t[3])), int32(hx.Atoi(t[4])), int32(hx.Atoi(t[5])), t[6], t[7])
+		var minb, wait int32
+		if len(t) >= 10 {
+			minb, wait = int32(hx.Atoi(t[8])), int32(hx.Atoi(t[9]))
+			if wait > 0 && minb > 0 {
+				hx.St.Inc("fetch.minbytes")
+			}
+		}
+		return im.fetch(t[1], int8(hx.Atoi(t[2])), int32(hx.Atoi(t[3])), int32(hx.Atoi(t[4])), int32(hx.Atoi(t[5])), t[6], t[7], minb, wait)
 	}
 	return "bad-op"
 }
@@ -448,6 +504,13 @@ func stat(t []string, res string) {
 		}
 		hx.St.Inc("prod." + kind + "." + t[1] + ".code" + code)
 	case "fetch":
+		if f := strings.Fields(res + " ? ?"); f[0] != "0" && f[0] != "?" {
+			hx.St.Inc("fetch.waited")
+			if f[0] != t[len(t)-1] {
+				hx.St.Inc("fetch.woken-by-timeout-abort")
+			}
+		}
+		code = strings.Fields(res + " ? ?")[1]
 		k := "plain"
 		if t[5] == "0" {
 			k = "newsession"
@@ -485,7 +548,12 @@ func runGroup(t *testing.T, lines [][]string) []string {
 					im.close()
 				}
 				var err error
-				im, err = newImpl(int(hx.Atoi(tk[1])))
+				nb := 1
+				if len(tk) >= 3 {
+					nb = int(hx.Atoi(tk[2]))
+					hx.St.Inc("histories.two-brokers")
+				}
+				im, err = newImpl(int(hx.Atoi(tk[1])), nb)
 				if err != nil {
 					out[i] = "err-cluster:" + strings.ReplaceAll(err.Error(), " ", "_")
 					im = nil
